@@ -139,8 +139,51 @@ func faultsCase(c *Case, lean *LeanDriver) Verdict {
 		v.Other = msg
 		return v
 	}
+	if msg := slowSelectFaults(c, clean); msg != "" {
+		v.Other = msg
+		return v
+	}
 	v.Steps = tried
 	return v
+}
+
+// slowSelectFaults: one Select fails at once while every other Select of the query is slow, so
+// that the goroutines loading the other operands are still inside the storage when the failure
+// reaches the root. Exec must not return before they have finished and closed their queriers.
+func slowSelectFaults(c *Case, clean Result) string {
+	dry := NewMemStorage(c.Data())
+	execThanos(c, dry)
+	nsel := len(dry.Selects)
+	if nsel < 2 {
+		return ""
+	}
+	for victim := int32(1); victim <= int32(nsel) && victim <= 3; victim++ {
+		st := NewMemStorage(c.Data())
+		var seen, injected int32
+		victim := victim
+		st.SetHook(func(kind string, n int64, info any) Action {
+			if kind != EvSelect {
+				return Action{}
+			}
+			if atomic.AddInt32(&seen, 1) == victim {
+				atomic.StoreInt32(&injected, 1)
+				return Action{Err: errInjected}
+			}
+			time.Sleep(3 * time.Millisecond)
+			return Action{}
+		})
+		res := execThanos(c, st)
+		if atomic.LoadInt32(&injected) == 0 {
+			continue
+		}
+		if res.Kind != "err" {
+			return fmt.Sprintf("select #%d failed while the other selects were slow, but the query succeeded with %d series", victim, len(res.Series))
+		}
+		if lc := lifecycleComplaint(st); lc != "" {
+			return fmt.Sprintf("select #%d failed while the other selects were slow: %s", victim, lc)
+		}
+	}
+	return ""
 }
 
 // laggingFaults runs the query with the iterators of one Select slowed down and a failure (or a
